@@ -37,7 +37,7 @@ def shape(t, body, depth=0, limit=14):
     if tag == "param":
         return "$%d" % t[1]
     if tag == "upvar":
-        return "^" + _upvar_ty(body, t[1])
+        return "^"
     if tag == "phi":
         return "phi:" + _pk_ty(body, t[2])
     if tag == "mut":
